@@ -375,7 +375,7 @@ namespace
     }
     value exit___scalar(runtime& runtime, value::cref right)
     {
-        runtime.exit(static_cast<int>(std::round(*right.data<d_scalar>())));
+        runtime.exit(d_scalar::to_int(std::round(right.data<d_scalar, float>())));
         return {};
     }
     value respawn___(runtime& runtime)
